@@ -307,7 +307,7 @@ func genABIPayload(t *rapid.T) []byte {
 		i := uniform(t, 0, 1, "headi")
 		v := pickBig(t, "headv", c14HeadWords...)
 		if chance(t, 40, "headrel") {
-			v = big.NewInt(int64(len(p) - []int{32, 31, 0, 33, 64}[uniform(t, 0, 4, "headrelk")]))
+			v = big.NewInt(int64(len(p) - []int{32, 31, 0, 33, 64, 1, 16, 30}[uniform(t, 0, 7, "headrelk")]))
 			if v.Sign() < 0 {
 				v = big.NewInt(0)
 			}
@@ -321,7 +321,7 @@ func genABIPayload(t *rapid.T) []byte {
 		}
 		v := pickBig(t, "lenv", c14HeadWords...)
 		if chance(t, 40, "lenrel") {
-			v = big.NewInt(int64(len(p) - pos - []int{32, 31, 33, 0}[uniform(t, 0, 3, "lenrelk")]))
+			v = big.NewInt(int64(len(p) - pos - []int{32, 31, 33, 0, 1, 16}[uniform(t, 0, 5, "lenrelk")]))
 			if v.Sign() < 0 {
 				v = big.NewInt(1)
 			}
